@@ -249,12 +249,17 @@ func runC11(c *Ctx) {
 			var edges []ir.Edge
 			for _, iff := range ir.Ifs(fn) {
 				b, ok := iff.Cond.(*ssa.BinOp)
-				if !ok || b.Op != token.EQL {
+				if !ok || (b.Op != token.EQL && b.Op != token.NEQ) {
 					continue
 				}
 				k, isInt := ir.ConstInt(b.Y)
 				if isInt && strings.HasSuffix(c.exprDesc(b.X), ".Op") && (k == wv || k == cv) {
-					edges = append(edges, ir.Edge{From: iff.Block(), Succ: 0})
+					// the edge on which the operation IS Write / Create
+					succ := 0
+					if b.Op == token.NEQ {
+						succ = 1
+					}
+					edges = append(edges, ir.Edge{From: iff.Block(), Succ: succ})
 				}
 			}
 			okScope := len(edges) > 0 && ir.OnlyViaEdges(fn, call, edges)
@@ -498,11 +503,11 @@ func runC11(c *Ctx) {
 				okTrue, n := true, 0
 				ir.EnumPaths(up, &succEdge, false, func(p ir.BlockPath, end ssa.Instruction) {
 					ret, isRet := end.(*ssa.Return)
-					if !isRet {
+					if !isRet || !ir.FeasiblePath(p) {
 						return
 					}
 					n++
-					if b, isB := ir.ConstBool(ir.ResolveOnPath(ret.Results[0], p)); !isB || !b {
+					if b, isB := ir.ConstBool(ir.ResolveOnPath(ir.ReturnResult(ret, 0), p)); !isB || !b {
 						okTrue = false
 					}
 				})
